@@ -246,3 +246,19 @@ pub(crate) fn model_push_column_l3(col: u32, buf: &mut String) {
     let x = col - 702;
     model_push_letters(buf, &[b'A' + (x / 676) as u8, b'A' + ((x / 26) % 26) as u8, b'A' + (x % 26) as u8]);
 }
+
+// ---- model of encoding_rs::Encoding::decode used by the string harnesses (C12, C03): third-party decoder, stubbed.
+// UTF-16LE, BMP/ASCII only: every code unit (lo, hi) becomes the char `lo & 0x7F`; harnesses assume hi == 0, lo < 0x80.
+pub(crate) fn model_utf16_decode<'a>(
+    e: &'static encoding_rs::Encoding,
+    bytes: &'a [u8],
+) -> (std::borrow::Cow<'a, str>, &'static encoding_rs::Encoding, bool) {
+    let mut s = String::with_capacity(8);
+    let v = unsafe { s.as_mut_vec() };
+    let mut i = 0;
+    while i + 1 < bytes.len() {
+        v.push(bytes[i] & 0x7F);
+        i += 2;
+    }
+    (std::borrow::Cow::Owned(s), e, false)
+}
